@@ -33,6 +33,7 @@ def handle (st : DState) (line : String) : DState × String :=
       let caseOps := match opO with | some o => st.caseOps ++ [o] | none => st.caseOps
       let (sessStart, sessOps) := match opO with
         | some .open => (s', [])
+        | some (.rebalance _ _) => (s', [])    -- `C05_partial` speaks about the history after a completed rebalance
         | some o => (st.sessStart, st.sessOps ++ [o])
         | none => (st.sessStart, st.sessOps)
       let st1 := { st with sess := s', caseOps := caseOps, sessStart := sessStart, sessOps := sessOps }
